@@ -15,6 +15,9 @@ CLAIMED = {
  "C09": dict(section="5/C09", technique="Lean 4 theorems (conservation invariant lifted over arbitrary call histories by induction; fun_induction over the readline loop) + differential correspondence",
     text="Proof: C09 (full statement) about Poor.Reader — conservation (results ++ pending = first n bytes) for every stream, declared length, block size, short-read script and call history; completeness (b'' only when nothing is owed); budget invariant (every underlying request <= bytes left of the declared length; position + budget = n); no CRLF inside a readline result; cut reason; bounded underlying reads per call. The model is tied to request.py CachedInput by running both on the same histories (results, per-call read counts and the exact sequence of underlying request sizes are compared).",
     note="Trusted: Lean kernel, model Poor.Reader, harness/c09.py with its instrumented stream. An empty underlying read is end of input; the blocking/wall-clock behaviour of the real stream is outside the model."),
+ "C16": dict(section="5/C16", technique="Lean 4 theorems (Nat division lemmas for the T-aligned windows; injective-hash hypothesis; decide witness for the false clause) + differential correspondence under an injected clock",
+    text="Proof: valid_iff / valid_of_lt / invalid_of_ge for every T>0 and t0<=t1 (exact ticks), C16_windows for any injective hash, C16_none (None and 0), C16_separation (acceptance forces equal formatted texts). The property's separation clause at full strength is proved FALSE of the code (C16_separation_full_false, delimiter-free concatenation) and recorded as a known finding; the check reports any other foreign acceptance as a violation.",
+    note="Trusted: Lean kernel, model Poor.Token, harness/c16.py (clock injected by rebinding poorwsgi.session.time). Hash injectivity is a theorem hypothesis; float rounding of time()/timeout is not modelled (exact microsecond ticks)."),
 }
 
 def check(pid):
